@@ -38,11 +38,14 @@ const smtPrelude = `
 // Script is an append-only list of SMT commands; obligations remember a prefix length.
 type Script struct {
 	lines []string
-	n     int // fresh-name counter
+	tags  []int // per line: index of the basic block (of the verification unit) that emitted it, -1 = global
+	cur   int   // current tag
+	n     int   // fresh-name counter
 }
 
 func (s *Script) add(format string, a ...interface{}) {
 	s.lines = append(s.lines, fmt.Sprintf(format, a...))
+	s.tags = append(s.tags, s.cur)
 }
 
 func (s *Script) fresh(prefix string) string {
@@ -71,6 +74,18 @@ func (s *Script) define(prefix, sort, term string) string {
 	}
 	n := s.fresh(prefix)
 	s.add("(define-fun %s () %s %s)", n, sort, term)
+	return n
+}
+
+// defineConst introduces a declared constant constrained to equal the term (usable inside E-matching
+// patterns, unlike a macro whose expansion contains ite/and/not).
+func (s *Script) defineConst(prefix, sort, term string) string {
+	if isAtom(term) {
+		return term
+	}
+	n := s.fresh(prefix)
+	s.add("(declare-fun %s () %s)", n, sort)
+	s.add("(assert (= %s %s))", n, term)
 	return n
 }
 
